@@ -5,6 +5,8 @@
 //! installed on the calling thread. Exactly one actor runs between two points; the actor
 //! that parks runs the scheduling step itself. See DESIGN.md §2.2.
 
+pub mod absmodel;
+
 use fontdrasil::verif::{Ev, Hooks, Op, install};
 use std::{
     collections::{BTreeMap, BTreeSet, HashMap, VecDeque},
@@ -42,6 +44,25 @@ struct AccessRec {
     write: bool,
     item: String,
     vc: Vec<u32>,
+}
+
+/// One entry of the ordered event log of a recorded execution (`run_recorded`): what the abstract
+/// scheduler model (`absmodel`) is extracted from and what it is validated against.
+#[derive(Debug, Clone, PartialEq, serde::Serialize, serde::Deserialize)]
+pub enum LogEv {
+    /// scheduler view at the start of `exec` (`about` empty) or after `handle_success(about)`
+    Snapshot { about: String, text: String },
+    /// main is at the top of its loop (a scan of the pending jobs follows)
+    LoopHead,
+    Launch { job: String },
+    ExecBegin { job: String },
+    ExecEnd { job: String },
+    /// a context access; `job` is None for the main thread
+    Access { job: Option<String>, write: bool, item: String },
+    Dec { job: String, counter: String },
+    Send { job: String },
+    Received { job: String },
+    HandleSuccess { job: String },
 }
 
 /// The visited-state set: `check_insert(key, remaining)` returns true if the state must be
@@ -195,6 +216,8 @@ struct Inner {
     cvs: Vec<Arc<Condvar>>,
     threads: Vec<std::thread::JoinHandle<()>>,
     divergence: Option<String>,
+    record: bool,
+    log: Vec<LogEv>,
 }
 
 struct Shared {
@@ -354,6 +377,10 @@ impl Inner {
                 self.actors[who].trace.push('e');
             }
             COp::User(Op::Dec(c)) => {
+                if self.record {
+                    let job = self.actors[who].job.clone().unwrap_or_default();
+                    self.log.push(LogEv::Dec { job, counter: c.to_string() });
+                }
                 self.actors[who].decs_done += 1;
                 self.actors[who].trace.push('D');
                 self.tick(who);
@@ -373,6 +400,9 @@ impl Inner {
                 }
             }
             COp::User(Op::Send(j)) => {
+                if self.record {
+                    self.log.push(LogEv::Send { job: j.clone() });
+                }
                 self.actors[who].sent = true;
                 self.actors[who].trace.push('s');
                 self.tick(who);
@@ -383,6 +413,11 @@ impl Inner {
                 if let Some((_, vc, from)) = self.chan.pop_front() {
                     vc_join(&mut self.actors[who].vc, &vc);
                     self.actors[from].received = true;
+                }
+            }
+            COp::User(Op::LoopHead(_)) => {
+                if self.record {
+                    self.log.push(LogEv::LoopHead);
                 }
             }
             _ => {}
@@ -457,6 +492,9 @@ impl Hooks for Handle {
         let id = self.id;
         match ev {
             Ev::Launch { job, counters, .. } => {
+                if g.record {
+                    g.log.push(LogEv::Launch { job: job.clone() });
+                }
                 g.tick(id);
                 let vc = g.actors[id].vc.clone();
                 g.launch_vc.insert(job.clone(), vc);
@@ -468,6 +506,9 @@ impl Hooks for Handle {
                 g.queue = q;
             }
             Ev::ExecBegin(job) => {
+                if g.record {
+                    g.log.push(LogEv::ExecBegin { job: job.clone() });
+                }
                 if let Some(pos) = g.queue.iter().rposition(|j| *j == job) {
                     g.queue.remove(pos);
                 }
@@ -480,7 +521,10 @@ impl Hooks for Handle {
                 vc_join(&mut a.vc, &lvc);
                 g.tick(id);
             }
-            Ev::ExecEnd(_) => {
+            Ev::ExecEnd(job) => {
+                if g.record {
+                    g.log.push(LogEv::ExecEnd { job });
+                }
                 g.actors[id].trace.push('E');
                 g.tick(id);
             }
@@ -490,6 +534,9 @@ impl Hooks for Handle {
                 g.tick(id);
                 let job = g.actors[id].job.clone();
                 let vc = g.actors[id].vc.clone();
+                if g.record {
+                    g.log.push(LogEv::Access { job: job.clone(), write, item: item.clone() });
+                }
                 g.accesses.push(AccessRec {
                     actor: id,
                     job,
@@ -498,9 +545,24 @@ impl Hooks for Handle {
                     vc,
                 });
             }
-            Ev::HandleSuccess(j) => g.obs.push(format!("H {j}")),
+            Ev::HandleSuccess(j) => {
+                if g.record {
+                    g.log.push(LogEv::HandleSuccess { job: j.clone() });
+                }
+                g.obs.push(format!("H {j}"))
+            }
+            Ev::Snapshot { about, text } => {
+                if g.record {
+                    g.log.push(LogEv::Snapshot { about, text });
+                }
+            }
             Ev::JobAdded(j) => g.obs.push(format!("A {j}")),
-            Ev::Received(j) => g.obs.push(format!("R {j}")),
+            Ev::Received(j) => {
+                if g.record {
+                    g.log.push(LogEv::Received { job: j.clone() });
+                }
+                g.obs.push(format!("R {j}"))
+            }
             _ => {}
         }
     }
@@ -640,14 +702,32 @@ pub struct ExecResult {
     pub n_steps: usize,
     pub n_tasks: usize,
     pub n_accesses: usize,
+    /// ordered event log (only from `run_recorded`)
+    #[serde(default, skip_serializing_if = "Vec::is_empty")]
+    pub log: Vec<LogEv>,
+    /// this execution's log was replayed against the abstract model (`absmodel::conform`)
+    #[serde(default)]
+    pub conformed: bool,
+    #[serde(default)]
+    pub conform_error: Option<String>,
 }
 
 /// The job: runs the compiler on the calling thread (a handle is installed) and describes the result.
 pub type Job = Arc<dyn Fn() -> String + Send + Sync>;
 
 pub fn run_one(job: &Job, cfg: &RunCfg, prefix: &[usize], visited: Option<&Visited>) -> ExecResult {
+    run_inner(job, cfg, prefix, visited, false)
+}
+
+/// `run_one` that also returns the ordered event log of the execution (`ExecResult::log`).
+pub fn run_recorded(job: &Job, cfg: &RunCfg, prefix: &[usize]) -> ExecResult {
+    run_inner(job, cfg, prefix, None, true)
+}
+
+fn run_inner(job: &Job, cfg: &RunCfg, prefix: &[usize], visited: Option<&Visited>, record: bool) -> ExecResult {
     let sh = Arc::new(Shared {
         m: Mutex::new(Inner {
+            record,
             k: cfg.k,
             main_last: cfg.main_last,
             harvest: cfg.harvest,
@@ -760,6 +840,9 @@ pub fn run_one(job: &Job, cfg: &RunCfg, prefix: &[usize], visited: Option<&Visit
         n_steps: g.step,
         n_tasks: g.actors.len() - 1,
         n_accesses: g.accesses.len(),
+        log: g.log.clone(),
+        conformed: false,
+        conform_error: None,
     }
 }
 
@@ -779,6 +862,11 @@ fn race_check(accesses: &[AccessRec]) -> Vec<String> {
                 }
                 // membership writes of a map commute with each other
                 if item.starts_with("MAP:") && x.write && y.write {
+                    continue;
+                }
+                // the main thread is the scheduler, not a compilation step: its reads inside handle_success
+                // (recomputing a job's dependencies from a glyph) are not judged (DESIGN.md §2.2b)
+                if x.actor == 0 || y.actor == 0 {
                     continue;
                 }
                 // x precedes y in log order; HB iff y has seen x's own component
@@ -831,6 +919,9 @@ pub struct ExploreStats {
     pub failures: BTreeMap<String, Vec<usize>>,
     pub deadlocks: BTreeMap<String, Vec<usize>>,
     pub protocol_errors: BTreeMap<String, Vec<usize>>,
+    /// executions (complete or abandoned) whose event log was replayed against the abstract model
+    pub conformed: usize,
+    pub conform_errors: BTreeMap<String, Vec<usize>>,
     pub divergences: Vec<String>,
     pub window_execs: usize,
     pub window_loads: usize,
@@ -1048,6 +1139,12 @@ pub fn worker_loop(job: &Job) -> ! {
         ShmTable::open(std::path::Path::new(&std::env::var("VERIF_VRT_SHM").unwrap_or_default()))
             .expect("open shared visited table"),
     );
+    // with VERIF_VRT_CONFORM set every execution is recorded and replayed against the abstract model
+    // extracted from this worker's own reference run (default schedule, main first)
+    let instance = std::env::var("VERIF_VRT_CONFORM").ok().map(|_| {
+        let r = run_recorded(job, &RunCfg { k: 64, main_last: false, dmax: 0, harvest: false }, &[]);
+        absmodel::extract(&r.log)
+    });
     let stdin = std::io::stdin();
     let mut line = String::new();
     loop {
@@ -1064,7 +1161,26 @@ pub fn worker_loop(job: &Job) -> ! {
             .split(',')
             .filter_map(|x| x.parse().ok())
             .collect();
-        let r = run_one(job, &run, &prefix, Some(&table));
+        let r = match &instance {
+            None => run_one(job, &run, &prefix, Some(&table)),
+            Some(inst) => {
+                let mut r = run_inner(job, &run, &prefix, Some(&table), true);
+                let log = std::mem::take(&mut r.log);
+                match inst {
+                    Err(e) => r.conform_error = Some(format!("extraction failed: {e}")),
+                    Ok(inst) => {
+                        // a deadlocked / failed / diverged execution is judged by the other monitors
+                        if r.deadlock.is_none() && r.divergence.is_none() && r.outcome.as_deref().is_none_or(|o| o.starts_with("ok:")) {
+                            r.conformed = true;
+                            if let Err(e) = absmodel::conform(inst, &log, r.outcome.is_some()) {
+                                r.conform_error = Some(e);
+                            }
+                        }
+                    }
+                }
+                r
+            }
+        };
         let out = std::io::stdout();
         let mut o = out.lock();
         let _ = writeln!(o, "VRT {}", serde_json::to_string(&r).unwrap_or_default());
@@ -1187,6 +1303,12 @@ fn explore_with(
                         }
                         for x in &r.protocol_errors {
                             st.protocol_errors.entry(x.clone()).or_insert_with(|| choices.clone());
+                        }
+                        if r.conformed {
+                            st.conformed += 1;
+                        }
+                        if let Some(e) = &r.conform_error {
+                            st.conform_errors.entry(e.clone()).or_insert_with(|| choices.clone());
                         }
                     }
                     let (m, cv) = &*frontier;
